@@ -413,3 +413,24 @@ def rows_from_model(model, n, first_price=100.0, sym_from=0, name='x', ts0=T0, v
             k = '%s%d' % (name, i)
             rows.append([ts, model[k + '_o'], model[k + '_c'], model[k + '_h'], model[k + '_l'], volume])
     return rows
+
+
+def sparse_rows(ctx, n, sym, move=None, lo=50, hi=200, first_price=100.0, name='x', ts0=T0):
+    """n 1m rows opening at the previous close; minutes listed in `sym` are symbolic (range < move if given), the others flat"""
+    rows = []
+    prev = first_price
+    for i in range(n):
+        ts = ts0 + i * MIN
+        if i in sym:
+            c = ctx.real('%s%d_c' % (name, i), lo, hi, npf=True)
+            h = ctx.real('%s%d_h' % (name, i), lo, hi, npf=True)
+            l = ctx.real('%s%d_l' % (name, i), lo, hi, npf=True)
+            cond = (l <= prev) & (l <= c) & (prev <= h) & (c <= h)
+            if move is not None:
+                cond = cond & (h - l < move)
+            ctx.constrain(cond)
+            rows.append([ts, prev, c, h, l, 10.0])
+            prev = c
+        else:
+            rows.append([ts, prev, prev, prev, prev, 10.0])
+    return rows
